@@ -483,8 +483,16 @@ def _finish(fut, async_op):
     return None
 
 
+def _need_contiguous(w, kind, *tensors):
+    # the raw transports read the underlying buffer (gloo) or refuse (NCCL): a strided view is never a valid collective argument
+    for t in tensors:
+        if torch.is_tensor(t) and not t.is_contiguous():
+            w.errors.append(f'rank {_tls.rank}: {kind} called with a non-contiguous tensor (shape {tuple(t.shape)}, stride {t.stride()})')
+
+
 def _all_reduce(tensor, op=None, group=None, async_op=False):
     w = _w()
+    _need_contiguous(w, 'all_reduce', tensor)
     fut = w.issue('all_reduce', group, ('all_reduce', tensor.numel(), str(tensor.dtype)),
                   tensor, tensor.numel(), str(tensor.dtype), None, async_op=async_op)
     return _finish(fut, async_op)
@@ -492,6 +500,7 @@ def _all_reduce(tensor, op=None, group=None, async_op=False):
 
 def _broadcast(tensor, src=None, group=None, async_op=False, group_src=None):
     w = _w()
+    _need_contiguous(w, 'broadcast', tensor)
     fut = w.issue('broadcast', group, ('broadcast', tensor.numel(), str(tensor.dtype), src),
                   tensor, tensor.numel(), str(tensor.dtype), src, async_op=async_op)
     return _finish(fut, async_op)
@@ -499,6 +508,7 @@ def _broadcast(tensor, src=None, group=None, async_op=False, group_src=None):
 
 def _all_gather(tensor_list, tensor, group=None, async_op=False):
     w = _w()
+    _need_contiguous(w, 'all_gather', tensor, *tensor_list)
     fut = w.issue('all_gather', group, ('all_gather', tensor.numel(), str(tensor.dtype)),
                   (tensor_list, tensor), tensor.numel(), str(tensor.dtype), None, async_op=async_op)
     return _finish(fut, async_op)
@@ -506,6 +516,7 @@ def _all_gather(tensor_list, tensor, group=None, async_op=False):
 
 def _reduce_scatter(output, input_list, op=None, group=None, async_op=False):
     w = _w()
+    _need_contiguous(w, 'reduce_scatter', output, *input_list)
     fut = w.issue('reduce_scatter', group, ('reduce_scatter', output.numel(), str(output.dtype)),
                   (output, input_list), output.numel(), str(output.dtype), None, async_op=async_op)
     return _finish(fut, async_op)
